@@ -156,6 +156,10 @@ func c8Program(cell c8Cell) (src, stdin string, pre map[string]string, expOut st
 	case "compare":
 		sb.WriteString(obtain("x") + obtain("w") + "print(x == w, x != w, x == \"Zq\", x != \"Zq\", x + \"k\" == w)\n")
 		expOut = "1 0 0 1 0\n"
+	case "slice-copy":
+		// copy() moves every element through a helper of the emitted script
+		sb.WriteString(obtain("x") + "src := []string{\"p\", x, \"q\"}\nvar dst []string\nn := copy(dst, src)\nprint(n, len(dst))\n" + sink("dst[1]") + sink("src[1]"))
+		expOut = "3 3\n" + mark(v) + mark(v)
 	case "compare-empty":
 		// against the empty string, nil and as an empty switch case: an emptiness test must not split or interpret the value
 		sb.WriteString(obtain("x") + "print(x == \"\", \"\" == x, x != \"\", x == nil, nil != x)\nswitch x {\ncase \"\":\n\tprint(\"empty\")\ndefault:\n\tprint(\"not empty\")\n}\n")
@@ -227,7 +231,7 @@ var c8Hostile = []string{"$(touch CANARY)", "`touch CANARY`", "$HOME", "${x}", "
 	// blanks and tabs next to an embedded line break (a literal with an embedded newline spans several script lines)
 	"a \nb", "a\t\nb", "a\n b", " \n ", "x \n", "\n x", "a  \n  b", "~", "~/x", "a=~/x", "\ta", "a\t"}
 
-var c8Paths = []string{"sink", "print", "print-two", "assign", "concat-left", "concat-right", "compare", "compare-empty", "argument", "argument-second", "return", "slice-literal", "slice-assign", "slice-param", "range-slice", "range-string", "subscript", "len", "write", "switch"}
+var c8Paths = []string{"sink", "print", "print-two", "assign", "concat-left", "concat-right", "compare", "compare-empty", "slice-copy", "argument", "argument-second", "return", "slice-literal", "slice-assign", "slice-param", "range-slice", "range-string", "subscript", "len", "write", "switch"}
 var c8Origins = []string{"literal", "literal-direct", "raw-literal", "file", "stdin", "stdin-prompt", "stdin-function", "command"}
 
 // c8Prompt is the prompt of input(prompt); wherever it is shown it is not part of the value (execCase.IgnoreToken).
@@ -249,7 +253,7 @@ func c8Run(cell c8Cell) (execCase, execOutcome, bool) {
 
 func TestC08(t *testing.T) {
 	r, e := start(t, "C08",
-		"matrix: every printable ASCII character (plus newline and tab) x position (first, middle, last, only; carrier 'ab') x 19 data paths (print bare / with a second value, marker sink, assign, concatenation left/right, comparison both outcomes, comparison with the empty string / nil / an empty switch case, argument 1st/2nd, return from a function that obtains the value, slice literal / element assignment / through a slice parameter, range over slice and over the string, subscripts and substrings, len, write + append (file bytes), switch) x 5 origins (interpreted literal, raw literal, file via read, stdin via input, captured command output); plus random strings of length 0-12 over the full alphabet with hostile constants ($(touch CANARY), `touch CANARY`, $HOME, ${x}, *, ~, {a,b}, -n, -e, --, blanks, ;, &, |, >f, quotes, backslashes) pushed through random paths. Oracle: byte-exact value on stdout between markers / in the file, empty stderr, exit 0, and no file in the sandbox that was not written by the program. Non-trivial = cells whose character is not alphanumeric; distinct by (path, origin, value).",
+		"matrix: every printable ASCII character (plus newline and tab) x position (first, middle, last, only; carrier 'ab') x 19 data paths (print bare / with a second value, marker sink, assign, concatenation left/right, comparison both outcomes, comparison with the empty string / nil / an empty switch case, argument 1st/2nd, return from a function that obtains the value, slice literal / element assignment / through a slice parameter / copy(), range over slice and over the string, subscripts and substrings, len, write + append (file bytes), switch) x 5 origins (interpreted literal, raw literal, file via read, stdin via input, captured command output); plus random strings of length 0-12 over the full alphabet with hostile constants ($(touch CANARY), `touch CANARY`, $HOME, ${x}, *, ~, {a,b}, -n, -e, --, blanks, ;, &, |, >f, quotes, backslashes) pushed through random paths. Oracle: byte-exact value on stdout between markers / in the file, empty stderr, exit 0, and no file in the sandbox that was not written by the program. Non-trivial = cells whose character is not alphanumeric; distinct by (path, origin, value).",
 		[]string{"Bash target only (the property's anchors)", "a value that cannot exist at an origin is skipped: trailing newlines for read/command output, any newline for input(), backquote in raw literals", "a cell whose marker sink already fails is attributed to the sink path of that (origin, class) and the other paths of that value are counted inconclusive"})
 	defer r.Flush()
 
